@@ -384,6 +384,9 @@ type Opt struct {
 	IgnoreBool bool
 	// Under: (Guard only) consider only branches that sit under all these decisions.
 	Under []Cond
+	// From: (Guard only) callee spec; additionally every path from a call of it to the target must take the
+	// non-rejecting edge of the guard (the guard cannot be by-passed or moved under another decision).
+	From string
 }
 
 func (c *Ctx) unlessEdges(fn *ssa.Function, fnName string, conds []Cond) EdgeSet {
@@ -811,6 +814,41 @@ func (c *Ctx) Guard(fn *ssa.Function, cond Cond, tgt Target, opt Opt) bool {
 			c.OK("K5", fnName, what, site, "rejecting edge leads to failure exits only")
 		}
 	}
+	if opt.From != "" {
+		what2 := "from " + opt.From + ", " + tgt.Name + " only through guard `" + cond.Canon + "`=" + fmt.Sprint(!cond.Sense)
+		calls := CallsIn(fn, opt.From)
+		if len(calls) == 0 {
+			c.Fail("anchor", fnName, what2, "-", "no call of "+opt.From)
+			return false
+		}
+		pass := union(EdgeSet{}, cut)
+		for _, e := range CondEdges(fn, Cond{Canon: cond.Canon, Sense: !cond.Sense}) {
+			pass[e] = true
+		}
+		for _, ci := range calls {
+			reached := ReachFrom(ci.Block().Succs, pass)
+			var hit []string
+			for _, ti := range tins {
+				if ti.Block() == ci.Block() && instrIndex(ti) > instrIndex(ci) {
+					hit = append(hit, c.At(ti))
+					continue
+				}
+				if !reached[ti.Block()] {
+					continue
+				}
+				if tgt.Success && !exitMayBeGood(ti.(*ssa.Return), vs, nil, reached) {
+					continue
+				}
+				hit = append(hit, c.At(ti))
+			}
+			if len(hit) > 0 {
+				ok = false
+				c.Fail("K2", fnName, what2, c.At(ci), "reachable without taking the guard's accepting edge: "+strings.Join(uniq(hit), ", "))
+			} else {
+				c.OK("K2", fnName, what2, c.At(ci), "every path to the target takes the accepting edge")
+			}
+		}
+	}
 	return ok
 }
 
@@ -1162,4 +1200,70 @@ func hasBool(sig *types.Signature) bool {
 		}
 	}
 	return false
+}
+
+// Then (K2): from every instruction matching `from`, every path to an instruction
+// matching `to` passes one matching `must`, unless it takes one of the `unless`
+// edges (e.g. once the highest marker was moved, no exit is reached without the
+// dependent marker being re-derived, unless the ancestor does not exist).
+func (c *Ctx) Then(fn *ssa.Function, from, must, to Target, unless []Cond, why string) {
+	if fn == nil {
+		return
+	}
+	fnName := load.QualName(fn)
+	what := "after " + from.Name + ", " + to.Name + " only through " + must.Name
+	if len(unless) > 0 {
+		what += " unless " + condsString(unless)
+	}
+	fins, mins, tins := from.instrs(fn), must.instrs(fn), to.instrs(fn)
+	if len(fins) == 0 || len(mins) == 0 || len(tins) == 0 {
+		c.Fail("anchor", fnName, what, "-", fmt.Sprintf("matched %d / %d / %d instruction(s)", len(fins), len(mins), len(tins)))
+		return
+	}
+	cut := union(c.unlessEdges(fn, fnName, unless), InfeasibleEdges(fn))
+	mustAt := map[*ssa.BasicBlock]int{}
+	for _, m := range mins {
+		if i, ok := mustAt[m.Block()]; !ok || instrIndex(m) < i {
+			mustAt[m.Block()] = instrIndex(m)
+		}
+	}
+	for _, f := range fins {
+		c.Sites++
+		var bad []string
+		seen := map[*ssa.BasicBlock]bool{}
+		var walk func(b *ssa.BasicBlock, start int)
+		walk = func(b *ssa.BasicBlock, start int) {
+			lim := len(b.Instrs)
+			stop := false
+			if i, ok := mustAt[b]; ok && i >= start {
+				lim, stop = i, true
+			}
+			for _, t := range tins {
+				if t.Block() == b && instrIndex(t) >= start && instrIndex(t) < lim {
+					bad = append(bad, c.At(t))
+				}
+			}
+			if stop {
+				return
+			}
+			for i, s := range b.Succs {
+				if cut[Edge{b, i}] || seen[s] {
+					continue
+				}
+				seen[s] = true
+				walk(s, 0)
+			}
+		}
+		walk(f.Block(), instrIndex(f)+1)
+		if len(bad) > 0 {
+			c.Fail("K2", fnName, what, c.At(f), "reached without it: "+strings.Join(uniq(bad), ", ")+" ("+why+")")
+		} else {
+			c.OK("K2", fnName, what, c.At(f), why)
+		}
+	}
+}
+
+// ToAnyReturn: every return instruction.
+func ToAnyReturn() Target {
+	return Target{Name: "return", Instr: func(i ssa.Instruction) bool { _, ok := i.(*ssa.Return); return ok }}
 }
